@@ -81,15 +81,22 @@ var (
 // contents never influence a run because identities are passed explicitly).
 func scratchDir() string {
 	stateDirOnce.Do(func() {
-		// in the worker's own working directory (the runner's per-check output
-		// directory), not in the system temp directory that others clean
-		wd, err := os.Getwd()
+		// On a memory file system if there is one: the factory rewrites its state
+		// file (with fsync, since the C18 repair) on every start, i.e. in every
+		// run of every worker, and a real disk under that load has been seen to
+		// stall a rename for more than a minute.  Otherwise in the worker's own
+		// working directory (the runner's per-check output directory), never in
+		// the system temp directory that others clean.
+		d, err := os.MkdirTemp("/dev/shm", "verif-scratch-state-")
 		if err != nil {
-			panic(err)
-		}
-		d, err := os.MkdirTemp(wd, "scratch-state-")
-		if err != nil {
-			panic(err)
+			wd, werr := os.Getwd()
+			if werr != nil {
+				panic(werr)
+			}
+			d, err = os.MkdirTemp(wd, "scratch-state-")
+			if err != nil {
+				panic(err)
+			}
 		}
 		stateDir = d
 	})
